@@ -39,6 +39,7 @@ import (
 	"strings"
 	"testing"
 	"unicode"
+	"unicode/utf8"
 
 	"github.com/titpetric/vuego/formatter"
 	"golang.org/x/net/html"
@@ -86,9 +87,78 @@ type Case struct {
 	Indent      int    `json:"indent,omitempty"`  // 0 = default options
 	NoFinal     bool   `json:"nofinal,omitempty"` // InsertFinal=false
 	MustFormat  bool   `json:"must_format,omitempty"`
+	// Long > 0: every U+F6FF in the text fields stands for a run of Long characters without a
+	// line break (keeps cases with 64 KiB lines small and replayable).
+	Long int `json:"long,omitempty"`
+	// RawBytes: every rune U+F780..U+F7FF in the text fields stands for the single byte
+	// 0x80..0xFF (bytes that are not valid UTF-8 cannot be stored in JSON).
+	RawBytes bool `json:"raw_bytes,omitempty"`
 }
 
-func (c Case) source() string { return c.FrontMatter + c.Gap + c.Doctype + c.Body }
+const longTok = "\uF6FF"
+
+// longRun is a deterministic run of n base64 characters.
+func longRun(n int) string {
+	const alpha = "ABCDEFGHIJKLMNOPQRSTUVWXYZabcdefghijklmnopqrstuvwxyz0123456789+/"
+	b := make([]byte, n)
+	for i := range b {
+		b[i] = alpha[(i*7+i/64)%64]
+	}
+	return string(b)
+}
+
+// encodeBytes stores the bytes >= 0x80 of s one by one as U+F700+byte; decodeBytes undoes it.
+func encodeBytes(s string) string {
+	var sb strings.Builder
+	for i := 0; i < len(s); i++ {
+		if s[i] >= 0x80 {
+			sb.WriteRune(0xF700 + rune(s[i]))
+		} else {
+			sb.WriteByte(s[i])
+		}
+	}
+	return sb.String()
+}
+
+func decodeBytes(s string) string {
+	var sb strings.Builder
+	for _, r := range s {
+		if r >= 0xF780 && r <= 0xF7FF {
+			sb.WriteByte(byte(r - 0xF700))
+		} else {
+			sb.WriteRune(r)
+		}
+	}
+	return sb.String()
+}
+
+// expanded returns the case with the Long and RawBytes encodings resolved.
+func (c Case) expanded() Case {
+	if c.Long == 0 && !c.RawBytes {
+		return c
+	}
+	run := ""
+	if c.Long > 0 {
+		run = longRun(c.Long)
+	}
+	f := func(s string) string {
+		if c.RawBytes {
+			s = decodeBytes(s)
+		}
+		if c.Long > 0 {
+			s = strings.ReplaceAll(s, longTok, run)
+		}
+		return s
+	}
+	c.FrontMatter, c.Gap, c.Doctype, c.Body = f(c.FrontMatter), f(c.Gap), f(c.Doctype), f(c.Body)
+	c.Long, c.RawBytes = 0, false
+	return c
+}
+
+func (c Case) source() string {
+	c = c.expanded()
+	return c.FrontMatter + c.Gap + c.Doctype + c.Body
+}
 
 // theRec lets check count inputs that Format refused (never used to decide anything).
 var theRec *ev.Rec
@@ -224,12 +294,22 @@ func protectSpaces(s string) string {
 	if !hasWideSpace(s) {
 		return s
 	}
-	return strings.Map(func(r rune) rune {
-		if r > 0x7f && unicode.IsSpace(r) {
-			return 0xE000 + r%0x1000
+	// byte-safe: bytes that are not valid UTF-8 are copied as they are (strings.Map would turn
+	// them into U+FFFD on both sides of the comparison)
+	var sb strings.Builder
+	for i := 0; i < len(s); {
+		r, w := utf8.DecodeRuneInString(s[i:])
+		switch {
+		case r == utf8.RuneError && w == 1:
+			sb.WriteByte(s[i])
+		case r > 0x7f && unicode.IsSpace(r):
+			sb.WriteRune(0xE000 + r%0x1000)
+		default:
+			sb.WriteString(s[i : i+w])
 		}
-		return r
-	}, s)
+		i += w
+	}
+	return sb.String()
 }
 
 // readable undoes protectSpaces inside a failure message.
@@ -312,6 +392,7 @@ func short(s string) string {
 
 // check is the property: idempotence, then preservation.
 func check(c Case) error {
+	c = c.expanded()
 	src := c.source()
 	f := newFormatter(c)
 	o1, err := f.Format(src)
@@ -443,6 +524,7 @@ func inside(n *html.Node, tags ...string) bool {
 // is open). Used to skip corpus files and fuzz inputs, and to prove that the generator's
 // construction really avoids the open regions (class "gen-in-open-region" must stay 0).
 func regions(c Case) map[string]bool {
+	c = c.expanded()
 	r := map[string]bool{}
 	lead := strings.ToLower(strings.TrimLeft(c.Doctype+c.Body, " \t\r\n"))
 	exact := strings.TrimLeft(c.Doctype+c.Body, " \t\r\n")
@@ -708,6 +790,13 @@ func classify(c Case) (bool, []string) {
 	set := map[string]bool{}
 	add := func(s string) { set[s] = true }
 	add("family:" + c.Kind)
+	if c.Long > 0 && strings.Contains(c.Body, longTok) {
+		add(fmt.Sprintf("long-line:%d", c.Long))
+	}
+	c = c.expanded()
+	if !utf8.ValidString(c.source()) {
+		add("bytes:not-valid-utf8")
+	}
 	switch {
 	case c.Doc:
 		add("shape:document")
